@@ -132,13 +132,17 @@ def check_net(net, spec):
     # a negative duty or a negative temperature difference is a heat source (the fluid leaves warmer than it entered)
     sources = any((e["qext_w"] or 0) < 0 or (e.get("deltat_k") or 0) < 0 for e in spec["heat_consumers"]) or \
         any(e["qext_w"] < 0 for e in spec["heat_exchangers"])
+    # lumped heat extraction (a consumer's or exchanger's prescribed duty / temperature drop / return temperature) can cool
+    # the fluid below the coldest feed and ambient temperature: the lower bound is a statement about pipes only
+    sinks = any((e["qext_w"] or 0) > 0 or (e.get("deltat_k") or 0) > 0 or e.get("treturn_k") is not None
+                for e in spec["heat_consumers"] if e["in_service"]) or any(e["qext_w"] > 0 for e in spec["heat_exchangers"] if e["in_service"])
     if not sources:
         amb = [p["text_k"] for p in spec["pipes"]] + [net["_options"]["ambient_temperature"]]
         feeds = [e["t_k"] for e in spec["ext_grids"] if e["in_service"]] + [e["t_flow_k"] for t in ("circ_pumps_p", "circ_pumps_m")
                                                                                for e in spec[t] if e["in_service"]]
         lo, hi = min(amb + feeds), max(amb + feeds)
         vals = tj.values[~np.isnan(tj.values)]
-        if len(vals) and (vals.min() < lo - 1e-6 or vals.max() > hi + 1e-6):
+        if len(vals) and ((not sinks and vals.min() < lo - 1e-6) or vals.max() > hi + 1e-6):
             fail("C10:bounds", "temperatures between coldest and warmest of feed and ambient", lo=lo, hi=hi,
                  tmin=float(vals.min()), tmax=float(vals.max()))
     return fails
